@@ -190,8 +190,12 @@ def main(argv=None):
             "line-verbose": "line://?verbose=true",
         }
         uri = mode_to_uri.get(args.mode, uri)
+        writer_fields = args.fields
+        if writer_fields and args.multi_timestamp:
+            # The writer selects fields once more: keep what the timestamp expansion adds to every record
+            writer_fields = "ts,ts_description," + writer_fields
         qparams = {
-            "fields": args.fields,
+            "fields": writer_fields,
             "exclude": args.exclude,
             "format_spec": args.format,
         }
